@@ -77,7 +77,7 @@ def gen_chain(rng, depth, kind, under_opt=False):
 def gen_chain_value(rng, ty, leaf, in_domain=True):
     tag = ty[0]
     if tag == "ser":
-        return rng.choice(leaf) if in_domain or rng.random() < .7 else rng.choice(["zzz", None, "", "x y"])
+        return rng.choice(leaf) if in_domain or rng.random() < .7 else rng.choice(["zzz", "", "x y"])     # strings the parser rejects; non-string leaves are outside the modelled domain
     if tag == "opt":
         return None if rng.random() < .3 else gen_chain_value(rng, ty[1], leaf, in_domain)
     if tag == "list":
